@@ -309,6 +309,9 @@ func NewHTTPTargeter(src io.Reader, body []byte, hdr http.Header) Targeter {
 				break
 			} else if strings.HasPrefix(line, "#") {
 				continue
+			} else if startsWithHTTPMethod(line) {
+				sc.peeked = line // belongs to the next target
+				break
 			} else if strings.HasPrefix(line, "@") {
 				if tgt.Body, err = os.ReadFile(line[1:]); err != nil {
 					return fmt.Errorf("bad body: %w", err)
